@@ -447,6 +447,23 @@ def build(P):
         shapes = ["OPENFILE \"k.txt\" FOR APPEND\nWRITEFILE \"k.txt\", \"new\"\nCLOSEFILE \"k.txt\"\nOPENFILE \"k.txt\" FOR READ\nWHILE NOT EOF(\"k.txt\")\nREADFILE \"k.txt\", x\nOUTPUT x\nENDWHILE",
                   "OPENFILE \"k.txt\" FOR WRITE\nCLOSEFILE \"k.txt\"\nOPENFILE \"k.txt\" FOR READ\nOUTPUT EOF(\"k.txt\")", "OPENFILE \"k.txt\" FOR READ\nREADFILE \"k.txt\", x\nREADFILE \"k.txt\", x\nREADFILE \"k.txt\", x\nOUTPUT \"[\", x, \"]\", EOF(\"k.txt\")",
                   "OPENFILE \"k.txt\" FOR READ\nDECLARE n : INTEGER\nREADFILE \"k.txt\", n", "OUTPUT EOF(\"k.txt\")", "OPENFILE \"k.txt\" FOR WRITE\nOUTPUT EOF(\"k.txt\")"]
+        # the file statements inside routines: the READFILE target is a global, a local, a BYREF or BYVAL parameter, a global read by a function called from the loop condition;
+        # WRITEFILE from a routine; the canonical loop split over two routines
+        for kind, head, tail, call in [("proc", "PROCEDURE Rd()", "ENDPROCEDURE", "CALL Rd()"), ("fn", "FUNCTION Rd() RETURNS INTEGER", "RETURN 0\nENDFUNCTION", "dummy <- Rd()")]:
+            shapes += [
+                "\n".join(["DECLARE line : STRING", "line <- \"(nothing read yet)\"", head, "READFILE \"k.txt\", line", tail, "OPENFILE \"k.txt\" FOR READ", "WHILE NOT EOF(\"k.txt\")", call, "OUTPUT \"[\", line, \"]\"", "ENDWHILE", "CLOSEFILE \"k.txt\""]),
+                "\n".join(["line <- \"(implicit global)\"", head, "READFILE \"k.txt\", line", "OUTPUT \"in [\", line, \"]\"", tail, "OPENFILE \"k.txt\" FOR READ", call, "OUTPUT \"[\", line, \"]\"", call, "OUTPUT \"[\", line, \"]\"", "OUTPUT EOF(\"k.txt\")"]),
+                "\n".join(["DECLARE line : STRING", "line <- \"global\"", head, "DECLARE line : STRING", "READFILE \"k.txt\", line", "OUTPUT \"in [\", line, \"]\"", tail, "OPENFILE \"k.txt\" FOR READ", call, "OUTPUT \"[\", line, \"]\""]),
+                "\n".join([head, "READFILE \"k.txt\", fresh", "OUTPUT \"in [\", fresh, \"]\"", tail, "OPENFILE \"k.txt\" FOR READ", call, "OUTPUT fresh"]),
+                "\n".join([head, "OPENFILE \"k.txt\" FOR APPEND", "WRITEFILE \"k.txt\", \"from routine\"", "CLOSEFILE \"k.txt\"", tail, call, "OPENFILE \"k.txt\" FOR READ", "WHILE NOT EOF(\"k.txt\")", "READFILE \"k.txt\", x", "OUTPUT x", "ENDWHILE"]),
+            ]
+        shapes += [
+            "DECLARE line : STRING\nPROCEDURE Rd(BYREF into : STRING)\nREADFILE \"k.txt\", into\nENDPROCEDURE\nOPENFILE \"k.txt\" FOR READ\nWHILE NOT EOF(\"k.txt\")\nCALL Rd(line)\nOUTPUT \"[\", line, \"]\"\nENDWHILE",
+            "DECLARE line : STRING\nline <- \"kept\"\nPROCEDURE Rd(into : STRING)\nREADFILE \"k.txt\", into\nOUTPUT \"in [\", into, \"]\"\nENDPROCEDURE\nOPENFILE \"k.txt\" FOR READ\nCALL Rd(line)\nOUTPUT \"[\", line, \"]\"",
+            "DECLARE line : STRING\nDECLARE n : INTEGER\nFUNCTION More() RETURNS BOOLEAN\nRETURN NOT EOF(\"k.txt\")\nENDFUNCTION\nPROCEDURE Each()\nREADFILE \"k.txt\", line\nn <- n + 1\nENDPROCEDURE\nOPENFILE \"k.txt\" FOR READ\nWHILE More()\nCALL Each()\nOUTPUT n, \" [\", line, \"]\"\nENDWHILE",
+            "TYPE Rec\nDECLARE s : STRING\nENDTYPE\nDECLARE r : Rec\nDECLARE a : ARRAY[1:2] OF STRING\nOPENFILE \"k.txt\" FOR READ\nREADFILE \"k.txt\", r\nOUTPUT \"after\"",
+            "DECLARE a : ARRAY[1:2] OF STRING\nOPENFILE \"k.txt\" FOR READ\nREADFILE \"k.txt\", a\nOUTPUT \"after\"",
+        ]
         yield ("shapes", [Case(id="C15-shape-%d" % j, prog=(s + "\n").encode(), files={"k.txt": ("f", b"old1\nold2\n")}) for j, s in enumerate(shapes)])
 
     def c15_oracle(c, r, m):
